@@ -109,11 +109,12 @@ def validated_callees():
 
 class ValidatedOracle(Oracle):
     quick_cases = 30000
-    bound = "Text/Integer/Choice/Decimal fields (allowed characters declared before or after the field) x empty allowed or not x length {none, 2, 1...3} x allowed characters {none, a-z+blank+digits} x formats {delimited, fixed(width 3)} x cells up to length 4 over {a, 1, blank, #}"
+    bound = "Text/Integer/Choice/Decimal fields (allowed characters declared before or after the field) x empty allowed or not x length {none, 2, 1...3} x allowed characters {none, a-z+blank+digits} x formats {delimited, fixed(width 3), ods (Decimal and Text)} x cells up to length 4 over {a, 1, blank, #}"
     def cases(self, ctx):
         cells = [""] + ["".join(p) for n in (1, 2, 3, 4) for p in itertools.product("a1 #", repeat=n)] + ["\ta", "a\t", "\t", "\t  ", " \t1", "a\tb"]
-        for fmt in ("delimited", "fixed"):
+        for fmt in ("delimited", "fixed", "ods"):       # ods stands for the spreadsheet formats: the guards are the same as for delimited data
             for ftype in ("Text", "Integer", "Choice", "Decimal"):
+                if fmt == "ods" and ftype not in ("Decimal", "Text"): continue
                 for empty in (False, True):
                     for length in (["3"] if fmt == "fixed" else ["", "2", "1...3"]):
                         for ac in (None, "32, 48...57, 97...122", "late:32, 48...57, 97...122"):
